@@ -163,7 +163,8 @@ class C12(spec.Spec):
                 nm = len(mutations(rk, r) if side == "result" else mutations(sk, s))
                 for mi in range(nm):
                     self.one(hist, di, side, mi, None, out)
-                    if self.two:
+                    if self.two and len(hist) <= 3:
+                        # (a second mutation on the other side: on every state to depth 3)
                         d = self.fresh(hist).doc
                         label, rk, r, sk, s = derive(d)[di]
                         nm2 = len(mutations(sk, s) if side == "result" else mutations(rk, r))
@@ -286,7 +287,7 @@ def main(tier, seed):
         "every deriving operation (copy, add_record into another / the own container, constructor, update, "
         "add_bundle(document), unified of the document and of each bundle, flattened, JSON/XML reload) x every mutation x side%s; a case is "
         "distinct by (state, derivation, side, mutation[s]); non-trivial = the mutation was applied and the other "
-        "side compared" % (len(hists), depth, " x second mutation on the other side" if tier == "thorough" else "")))
+        "side compared" % (len(hists), depth, " x second mutation on the other side (states to depth 3)" if tier == "thorough" else "")))
     return {"property": "C12", "coverage": cov, "violations": vs, "signatures": nsig,
             "wall_s": round(time.time() - t0, 2)}
 
